@@ -92,8 +92,9 @@ public:
   int ncomb;
   int fail_where;
   Index fail_cell;
+  std::mutex* mtx;   // the assembler's `_thread_mutex` (probe: is it held while combine() runs?)
   explicit InstrJob(const Mesh_& m) : mesh(m), vec(m.get_num_entities(0), 0.0), integral(0.0), ncomb(0),
-    fail_where(0), fail_cell(0) {}
+    fail_where(0), fail_cell(0), mtx(nullptr) {}
 
   class Task
   {
@@ -147,6 +148,17 @@ public:
     void combine()
     {
       log_event(5, 0);
+      // probe (kind 14, arg 1 = held): combine() must run while `_thread_mutex` is locked.  try_lock() from the
+      // owning thread is formally undefined for std::mutex; with glibc's default (non-recursive) mutex it fails with
+      // EBUSY, which is all we need.  Not compiled into the ThreadSanitizer build.
+#if !defined(__SANITIZE_THREAD__)
+      if(job.mtx != nullptr)
+      {
+        bool got = job.mtx->try_lock();
+        if(got) job.mtx->unlock();
+        log_event(14, got ? 0u : 1u);
+      }
+#endif
       maybe_fail(4);
       double t = job.integral;
       perturb();
@@ -171,6 +183,7 @@ public:
   const std::vector<Index>& tl() const { return this->_thread_layers; }
   const std::vector<Index>& ce() const { return this->_color_elements; }
   const std::vector<ThreadFence>& fences() const { return this->_thread_fences; }
+  std::mutex& thread_mutex() { return this->_thread_mutex; }
 };
 
 static Assembly::ThreadingStrategy strat(Index s)
@@ -221,6 +234,11 @@ static void h2_callback(int kind, const void* obj, std::size_t arg)
     if(g_fence_base != nullptr && f >= g_fence_base && f < g_fence_base + g_fence_count)
       log_event(k, std::size_t(f - g_fence_base));
   }
+  else if(kind == 20 || kind == 21)
+  {
+    // hook H2b (domain_assembler.hpp): `_thread_mutex` acquired / about to be released around combine()
+    log_event(kind, 0u);
+  }
   else
   {
     perturb();
@@ -234,6 +252,9 @@ static void h2_callback(int kind, const void* obj, std::size_t arg)
   }
 }
 #endif
+
+// one job of a session on one assembler
+struct JobSpec { bool ns, ncb; int fwhere; Index fcell; };
 
 template<typename Shape_>
 struct Runner
@@ -289,6 +310,7 @@ struct Runner
       JobType job(mesh);
       job.fail_where = fail_where;
       job.fail_cell = fail_cell;
+      job.mtx = &da.thread_mutex();
       g_log.assign(8u * da.ei().size() + 96u * (da.get_num_worker_threads() + 2u) * (da.ce().size() + 2u) + 64u, Rec());
       g_log_pos.store(0);
       bool hooks = false;
@@ -334,19 +356,18 @@ struct Runner
   }
 
   // ns / ncb: 0 = no, 1 = yes, 2 = alternate (even repetitions yes): jobs with and without scatter on ONE assembler
-  static void run(const Input& in, Index ns_mode, Index ncb_mode, Index reps, std::ostream& o, int fwhere, Index fcell)
+  static void run(const Input& in, const std::vector<JobSpec>& specs, std::ostream& o)
   {
     std::unique_ptr<MeshType> mesh(make_mesh(in));
     TrafoType trafo(*mesh);
     DAType da(trafo);
     setup(da, in);
     t_label = 0; // the master thread
-    o << "R " << da.get_num_worker_threads() << " " << reps;
-    for(Index rep(0); rep < reps; ++rep)
+    o << "R " << da.get_num_worker_threads() << " " << specs.size();
+    for(const JobSpec& sp : specs)
     {
-      bool ns = (ns_mode == 2u) ? (rep % 2u == 0u) : (ns_mode != 0u);
-      bool ncb = (ncb_mode == 2u) ? (rep % 2u == 0u) : (ncb_mode != 0u);
-      int fw = (rep == 0u) ? fwhere : 0;   // only the first job fails; the following ones must be exact again
+      bool ns = sp.ns, ncb = sp.ncb;
+      int fw = sp.fwhere; Index fcell = sp.fcell;
       if(ns && ncb) run_rep<true, true>(da, *mesh, o, fw, fcell);
       else if(ns) run_rep<true, false>(da, *mesh, o, fw, fcell);
       else if(ncb) run_rep<false, true>(da, *mesh, o, fw, fcell);
@@ -384,28 +405,64 @@ static void handle(const verif::Tokens& t, std::ostream& o)
   else if(op == "run")
   {
     Input in; in.read(c);
+    // ns / ncb: 0 = no, 1 = yes, 2 = alternate (even jobs yes); optional failure injection for the first job
     Index ns = c.idx(), ncb = c.idx();
     Index reps = c.idx();
     g_pseed = std::uint64_t(c.idx());
     int fwhere = 0; Index fcell = 0;
     if(!c.done()) { fwhere = int(c.idx()); fcell = c.idx(); }
+    std::vector<JobSpec> specs;
+    for(Index rep(0); rep < reps; ++rep)
+      specs.push_back(JobSpec{(ns == 2u) ? (rep % 2u == 0u) : (ns != 0u), (ncb == 2u) ? (rep % 2u == 0u) : (ncb != 0u),
+        rep == 0u ? fwhere : 0, fcell});
     by_shape(in,
-      [&]() { Runner<Shape::Hypercube<1>>::run(in, ns, ncb, reps, o, fwhere, fcell); },
-      [&]() { Runner<Shape::Simplex<2>>::run(in, ns, ncb, reps, o, fwhere, fcell); },
-      [&]() { Runner<Shape::Hypercube<2>>::run(in, ns, ncb, reps, o, fwhere, fcell); });
+      [&]() { Runner<Shape::Hypercube<1>>::run(in, specs, o); },
+      [&]() { Runner<Shape::Simplex<2>>::run(in, specs, o); },
+      [&]() { Runner<Shape::Hypercube<2>>::run(in, specs, o); });
+  }
+  else if(op == "session")
+  {
+    // session <input> pseed njobs {ns ncb fwhere fcell}*njobs : an explicit sequence of jobs on ONE assembler
+    Input in; in.read(c);
+    g_pseed = std::uint64_t(c.idx());
+    Index nj = c.idx();
+    std::vector<JobSpec> specs;
+    for(Index j(0); j < nj; ++j)
+    {
+      JobSpec sp; sp.ns = c.idx() != 0; sp.ncb = c.idx() != 0; sp.fwhere = int(c.idx()); sp.fcell = c.idx();
+      specs.push_back(sp);
+    }
+    by_shape(in,
+      [&]() { Runner<Shape::Hypercube<1>>::run(in, specs, o); },
+      [&]() { Runner<Shape::Simplex<2>>::run(in, specs, o); },
+      [&]() { Runner<Shape::Hypercube<2>>::run(in, specs, o); });
   }
   else if(op == "fjob")
   {
     c17_featjob(t, o);   // real FEAT jobs, see featjobs.cpp
   }
-  else if(op == "trace")
+  else if(op == "trace" || op == "strace")
   {
     // echo the schedule-independent part of the recorded run
     Input in; in.read(c);
-    c.idx(); c.idx(); c.idx(); c.idx();
-    std::string bar = c.str();
-    bool failing = false;
-    if(bar != "|") { failing = (bar != "0"); c.idx(); bar = c.str(); }
+    std::vector<bool> fails;
+    std::string bar;
+    if(op == "trace")
+    {
+      c.idx(); c.idx(); Index reps0 = c.idx(); c.idx();
+      bar = c.str();
+      bool failing = false;
+      if(bar != "|") { failing = (bar != "0"); c.idx(); bar = c.str(); }
+      fails.assign(reps0, false);
+      if(reps0 > 0u) fails[0] = failing;
+    }
+    else
+    {
+      c.idx();
+      Index nj = c.idx();
+      for(Index j(0); j < nj; ++j) { c.idx(); c.idx(); fails.push_back(c.idx() != 0u); c.idx(); }
+      bar = c.str();
+    }
     if(bar != "|") { o << "BAD-OP"; return; }
     std::string r = c.str();
     if(r != "R") { o << r; return; }
@@ -415,8 +472,9 @@ static void handle(const verif::Tokens& t, std::ostream& o)
     {
       // the results of a job with an injected failure are schedule dependent: placeholder "F"
       std::ostringstream dump;
-      std::ostream& q = (failing && rep == 0u) ? static_cast<std::ostream&>(dump) : o;
-      if(failing && rep == 0u) o << " F";
+      const bool frep = rep < fails.size() && fails[rep];
+      std::ostream& q = frep ? static_cast<std::ostream&>(dump) : o;
+      if(frep) o << " F";
       Index nseq = c.idx();
       q << " " << nseq;
       for(Index s(0); s < nseq; ++s) { auto l = c.idxlist(); q << " " << l.size(); for(auto x : l) q << " " << x; }
